@@ -285,7 +285,7 @@ func (p *Prog) ComputeLocksets(funcs []*ssa.Function) *Locksets {
 				root = false
 			}
 		}
-		if addrTaken(f) {
+		if addrTaken(f) && !(len(sites[f]) > 0 && onlyPassedToModuleCalls(p, f)) {
 			root = true
 		}
 		for _, s := range sites[f] {
@@ -563,4 +563,47 @@ func (ls *Locksets) Reacquisitions(funcs []*ssa.Function, acq map[*ssa.Function]
 		})
 	}
 	return out
+}
+
+// onlyPassedToModuleCalls: every use of the function value f (closure) is as
+// an argument of a call to a module function (which then calls it; the call
+// is resolved by dynamicTargets) or as the callee of a call.
+func onlyPassedToModuleCalls(p *Prog, f *ssa.Function) bool {
+	check := func(v ssa.Value) bool {
+		refs := v.Referrers()
+		if refs == nil {
+			return true
+		}
+		for _, r := range *refs {
+			switch t := r.(type) {
+			case *ssa.DebugRef:
+			case ssa.CallInstruction:
+				cc := t.Common()
+				if cc.Value == v {
+					continue
+				}
+				callee := cc.StaticCallee()
+				if callee == nil || !p.InModuleFn(callee) {
+					return false
+				}
+			default:
+				return false
+			}
+		}
+		return true
+	}
+	if f.Parent() != nil {
+		ok := true
+		found := false
+		funcInstrs(f.Parent(), func(in ssa.Instruction) {
+			if mc, isMC := in.(*ssa.MakeClosure); isMC && mc.Fn == f {
+				found = true
+				if !check(mc) {
+					ok = false
+				}
+			}
+		})
+		return ok && found
+	}
+	return false
 }
